@@ -50,5 +50,13 @@ def main(argv):
         return cmd_setup(rest)
     if cmd == "corr":
         return cmd_corr(rest)
+    if cmd == "coqchk":
+        # independent re-check of every compiled property file and everything it depends on; prints the axioms
+        st = build.ensure_built()
+        mods = sorted("QRB.Props." + f[:-2] for f in os.listdir(os.path.join(build.COQ, "Props")) if f.endswith(".v"))
+        rc, out, dt = build.sh(["coqchk", "-silent", "-o", "-Q", ".", "QRB"] + mods, cwd=build.COQ, timeout=7200)
+        print(out[-1500:])
+        print(f"coqchk exit {rc} ({dt:.0f}s)")
+        return rc
     from . import props
     return props.run(cmd, rest)
